@@ -4,7 +4,7 @@ from __future__ import annotations
 import ast
 from typing import Dict, List, Optional, Set, Tuple
 
-from .. import decoders, guards, registry, sym
+from .. import render, decoders, guards, registry, sym
 from ..model import AnalysisError, Repo
 from ..report import Run
 from ..sym import T, const, param, POp
@@ -137,6 +137,10 @@ def classify_pop(ctx: Ctx, p: POp, state_params: Set[str]):
             if why:
                 return ("index", why)
             return None
+        # (b') an index that is a parameter of the function (parse_vnode(events, index)): the caller decides how long the
+        # list has to be, so the access needs `index < len(list)` (or a try) on its own path
+        if key.op == "param" and may_be_short_list(base):
+            return ("index-param", f"{may_be_short_list(base)}, indexed by the parameter `{key.a[0]}`")
         # (a) table lookups
         tname = is_table_path(ctx, pth, state_params) or is_table_path(ctx, base, state_params)
         if tname:
@@ -163,6 +167,18 @@ def judge(ctx: Ctx, p: POp, cls: str, rec: sym.Record) -> Optional[str]:
         return guards.member_guarded(p, rec)
     if cls == "index":
         return guards.index_guarded(p)
+    if cls == "index-param":
+        if guards.in_try(p, guards.INDEX_EXC):
+            return "enclosing try/except IndexError"
+        ln = T("call", (T("builtin", ("len",)), (p.base,), ()))
+        a = guards.assumptions(p.pc)
+        for c in (T("cmp", ("<", p.key, ln)), T("cmp", (">", ln, p.key))):
+            if render.assume_lookup(a, c) is True:
+                return "index < len(list) established on the path"
+        for c in (T("cmp", (">=", p.key, ln)), T("cmp", ("<=", ln, p.key))):
+            if render.assume_lookup(a, c) is False:
+                return "index < len(list) established on the path"
+        return None
     if cls == "optional":
         if p.base.op in ("ite", "widen"):
             if not guards.possible_none(p.base, p.pc):
@@ -215,6 +231,7 @@ def analyse_record(ctx: Ctx, run: Run, rec: sym.Record, module: str, root: str, 
         if not ok:
             kind = {"lookup": "raises KeyError when the key was never announced",
                     "index": "raises IndexError when the list is shorter",
+                    "index-param": "raises IndexError when the list has no element at that position",
                     "optional": "raises AttributeError/TypeError when the value is None"}[cls]
             what = f"{expr} ({desc}) is evaluated when [{cond}] without a guard that covers it: {kind}"
         run.ob("R1", module_of(p.func), scope, construct, ok, what,
